@@ -163,16 +163,21 @@ pub fn number(num: &Number, p: &Interpreter) -> MResult<Value> {
 
 #[cfg(feature = "complex")]
 fn complex(num: &C64Node, p: &Interpreter) -> MResult<Value> {
-  let im: f64 = match real(&num.imaginary.number, p)?.as_f64() {
-    Ok(val) => *val.borrow(),
-    Err(_) => 0.0,
-  };
+  // A part written as a rational (1/2+3i) denotes that fraction, not zero.
+  fn part_as_f64(value: Value) -> f64 {
+    match value.as_f64() {
+      Ok(val) => *val.borrow(),
+      Err(_) => match &value {
+        #[cfg(feature = "rational")]
+        Value::R64(r) => { let r = r.borrow(); (*r.numer() as f64) / (*r.denom() as f64) },
+        _ => 0.0,
+      },
+    }
+  }
+  let im: f64 = part_as_f64(real(&num.imaginary.number, p)?);
   let result = match &num.real {
     Some(real_val) => {
-      let re: f64 = match real(&real_val, p)?.as_f64() {
-        Ok(val) => *val.borrow(),
-        Err(_) => 0.0,
-      };      
+      let re: f64 = part_as_f64(real(&real_val, p)?);
       Value::C64(Ref::new(C64::new(re, im)))
     },
     None => Value::C64(Ref::new(C64::new(0.0, im))),
